@@ -324,6 +324,9 @@ def sprouts(draw, box, nlevels, prof):
                 dfs.insert(0, {"kind": "NBC_FarEnough", "factor": draw(st.sampled_from([0.5, 1.0, 3.0])), "norm_ord": draw(st.sampled_from([1, 2, "inf"])), "check_only_active": draw(S_BOOL)})
             else:
                 dfs.insert(0, {"kind": "FarEnough", "min_distance_frac": draw(st.sampled_from([0.01, 0.1, 0.3])), "norm_ord": draw(st.sampled_from([1, 2, "inf"]))})
+        if prof.get("mahalanobis") and draw(st.integers(0, 2)) == 0:
+            # the fourth shipped deme-level filter: rejects candidates inside the Mahalanobis ball of a CMA-ES sibling
+            dfs.insert(draw(st.integers(0, len(dfs))), {"kind": "MahalanobisFarEnough", "percentile": draw(st.sampled_from([0.5, 0.9, 0.99]))})
         s["deme_filters"] = dfs
         tfs = []
         for name in draw(st.permutations(["LevelLimit", "SkipSameSprout"])):
